@@ -742,7 +742,7 @@ def project(o, flavour):
 
 def project_seq(o):
     """once a call of the sequence has shuffled the registry (srand called), the order of the tests in that call and in every later one
-    is the shuffle's business (C02): their ran lists are compared sorted"""
+    is the shuffle's business (C02): their ran lists are compared sorted; of the srand calls only 'any / none' is compared"""
     try:
         calls, fin = seq_calls(o)
         out, shuffled = [":seq"], False
@@ -754,7 +754,7 @@ def project_seq(o):
             shuffled = shuffled or seeds > 0
             if shuffled:
                 ran = sorted(ran, key=lambda x: int(x, 16))
-            out += [":c", pr, "%x" % seeds, "%x" % len(ran)] + ran + ["%x" % len(tags)] + tags
+            out += [":c", pr, "1" if seeds else "0", "%x" % len(ran)] + ran + ["%x" % len(tags)] + tags      # how often srand is called: not compared
         return " ".join(out + [fin])
     except (ValueError, IndexError):
         return o
